@@ -467,7 +467,42 @@ def store_commit_poison(ctx):
             ops3[bb] = ops3.get(bb, []) + [("clear", "synced")]   # error handled: obligation met
     for bb in errs:
         ops3.setdefault(bb, []).append(("bad_if", "synced"))
-    qs = [PQuery("Store::commit: poisoned is checked before Sync::sync", cfg, ops, ["loaded", "synced", "stored"], {},
+    # polarity and value: on the arm where the loaded flag is *true* Sync::sync must not be reached, and what is
+    # stored into the flag (here and in Store::poison) is the constant `true`
+    ops4 = {}
+    for bb in hits[0]:
+        b = cfg.blocks[bb]
+        nxt = b.succ[0][1] if len(b.succ) == 1 else None
+        nb = cfg.blocks.get(nxt) if nxt else None
+        if nb is not None and nb.switch_on and nb.switch_on.strip() == b.call[0]:
+            t = dict(nb.succ).get("otherwise")
+            if t:
+                ops4.setdefault(t, []).insert(0, ("set", "is_poisoned"))
+    for bb in hits[1]:
+        ops4.setdefault(bb, []).append(("bad_if", "is_poisoned"))
+    extra = []
+    if any(o[0] == "set" for v in ops4.values() for o in v):
+        extra.append(PQuery("Store::commit: when the loaded flag is true, Sync::sync is not reached", cfg, ops4, ["is_poisoned"], {},
+                            scenario="c14_ln_write_fails", key="Store::commit:commit proceeds although poisoned"))
+    else:
+        raise Unmatched("Store::commit: the poisoned flag is not branched on directly after the load")
+    bad_store = [bb for bb in hits[2] if not re.search(r"const true", cfg.blocks[bb].call[2])]
+    extra.append(PQuery("Store::commit: the flag is set to `true`", cfg, {bb: [("bad", None)] for bb in bad_store}, [], {},
+                        scenario="c14_ln_write_fails", key="Store::commit:poisoned stored with a value other than true"))
+    g = _fn(prog, r">::poison$", "store/mod.rs")
+    gcfg = pathsmt.Cfg(g)
+    st = [bb for bb in gcfg.order if gcfg.blocks[bb].call and re.search(r"Atomic(Bool|::<bool>)::store", gcfg.blocks[bb].call[1])]
+    if not st:
+        raise Unmatched("Store::poison does not store into an AtomicBool")
+    extra.append(PQuery("Store::poison: stores `true`", gcfg, {bb: [("bad", None)] for bb in st if not re.search(r"const true", gcfg.blocks[bb].call[2])}, [], {},
+                        scenario="c14_fault_sweep_rollback", key="Store::poison:does not set the flag"))
+    rets = [bb for bb in gcfg.order if gcfg.blocks[bb].is_return]
+    gops = {bb: [("set", "stored")] for bb in st}
+    for bb in rets:
+        gops.setdefault(bb, []).append(("bad_unless", "stored"))
+    extra.append(PQuery("Store::poison: the store happens on every path", gcfg, gops, ["stored"], {},
+                        scenario="c14_fault_sweep_rollback", key="Store::poison:returns without setting the flag"))
+    qs = extra + [PQuery("Store::commit: poisoned is checked before Sync::sync", cfg, ops, ["loaded", "synced", "stored"], {},
                  scenario="c14_ln_write_fails", key="Store::commit:sync without poison check"),
           PQuery("Store::commit: an Err from Sync::sync is returned only after poisoned was set", cfg, ops3,
                  ["loaded", "synced", "stored"], {}, scenario="c14_ln_write_fails", key="Store::commit:Err without poisoning"),
